@@ -1,83 +1,2 @@
-(* TableProofs.v — obligations that tie constants of the model to tables regenerated from /repo/src on every
-   run (extractor/gen_tables.py). A change of the Rust source that alters one of these facts makes this
-   file fail to compile. *)
-From Jawk Require Import Base Json Reader JsonParser Printer Chain Fn Expr ExprParser Go.
-From Jawk Require Gen.FnTable Gen.TypeRank Gen.ByteSets Gen.PrinterTables Gen.StageOrder Gen.MainWiring.
-Local Open Scope N_scope.
-
-(* all byte values *)
-Definition all_bytes : list N := map N.of_nat (seq 0 256).
-Lemma all_bytes_complete b : b < 256 -> In b all_bytes.
-Proof.
-  intros H. unfold all_bytes. apply in_map_iff. exists (N.to_nat b). split; [apply N2Nat.id|].
-  apply in_seq. lia.
-Qed.
-Lemma sweep (P : N -> bool) : forallb P all_bytes = true -> forall b, b < 256 -> P b = true.
-Proof. intros H b Hb. rewrite forallb_forall in H. apply H, all_bytes_complete, Hb. Qed.
-
-Definition memb (b : N) (l : list N) : bool := existsb (N.eqb b) l.
-
-(* type ranks: null < bool < string < number < object < array *)
-Lemma rank_ok :
-  map type_rank [JNull; JBool true; JStr []; JNum (NPos 0); JObj []; JArr []] = Gen.TypeRank.type_ranks.
-Proof. reflexivity. Qed.
-Lemma rank_documented : Gen.TypeRank.type_ranks = [0; 1; 2; 3; 4; 5].
-Proof. reflexivity. Qed.
-
-(* whitespace, digits, exponent markers of the reader / parser *)
-Lemma ws_ok : forall b, b < 256 -> Bool.eqb (is_ws b) (memb b Gen.ByteSets.ws_bytes) = true.
-Proof. apply sweep. vm_compute. reflexivity. Qed.
-Lemma digit_ok : forall b, b < 256 -> Bool.eqb (is_digit b) (memb b Gen.ByteSets.digit_bytes) = true.
-Proof. apply sweep. vm_compute. reflexivity. Qed.
-Lemma exp_marker_ok : forall b, b < 256 -> Bool.eqb (is_exp_marker b) (memb b Gen.ByteSets.exponent_markers) = true.
-Proof. apply sweep. vm_compute. reflexivity. Qed.
-(* RFC 8259: both e and E *)
-Lemma exp_marker_rfc : memb 101 Gen.ByteSets.exponent_markers = true /\ memb 69 Gen.ByteSets.exponent_markers = true.
-Proof. split; reflexivity. Qed.
-
-(* the value dispatch of next_json_value: which first bytes start which kind of value.
-   model_kind mirrors the N.eqb chain of JsonParser.parse_value *)
-Definition model_kind (b : N) : N :=
-  if b =? 116 then 1 else if b =? 102 then 2 else if b =? 110 then 3 else if b =? 34 then 4
-  else if (b =? 45) || is_digit b then 5 else if b =? 91 then 6 else if b =? 123 then 7 else 0.
-Fixpoint table_kind (b : N) (t : list (list N * N)) : N :=
-  match t with [] => 0 | (bs, k) :: t' => if memb b bs then k else table_kind b t' end.
-Lemma dispatch_ok : forall b, b < 256 -> N.eqb (model_kind b) (table_kind b Gen.ByteSets.dispatch) = true.
-Proof. apply sweep. vm_compute. reflexivity. Qed.
-
-(* escapes: the parser's table is the table in the source; the printer's escapes invert it *)
-Lemma parser_escapes_ok : escape_table = Gen.ByteSets.parser_escapes.
-Proof. reflexivity. Qed.
-Lemma printer_escapes_ok : print_escapes = Gen.PrinterTables.printer_escapes.
-Proof. reflexivity. Qed.
-Lemma escapes_inverse :
-  forallb (fun e => match assoc_N (snd e) escape_table with Some c => N.eqb c (fst e) | None => false end) print_escapes = true.
-Proof. reflexivity. Qed.
-Lemma printer_literal_condition_ok : Gen.PrinterTables.literal_condition = 1 /\ Gen.PrinterTables.unicode_escape_format = 1.
-Proof. split; reflexivity. Qed.
-
-(* the order in which Master::go wraps the stages, and start / read / complete / flush *)
-Definition kind_code (k : stage_kind) : N :=
-  match k with KGroup => 1 | KLimit => 2 | KSort => 3 | KUniq => 4 | KSelect => 5 | KFilter => 6 | KSplit => 7 | KPreSet => 8 end.
-Lemma stage_order_ok : Gen.StageOrder.go_sequence = [0] ++ map kind_code wrap_order ++ [9; 10; 11; 12].
-Proof. reflexivity. Qed.
-Lemma stage_order_documented :
-  rev wrap_order = [KPreSet; KSplit; KFilter; KSelect; KUniq; KSort; KLimit; KGroup].
-Proof. reflexivity. Qed.
-Lemma wrapping_details_ok :
-  Gen.StageOrder.selections_wrapped_in_reverse = true /\ Gen.StageOrder.only_first_sorter_capped = true.
-Proof. split; reflexivity. Qed.
-
-(* main: rows to stdout, diagnostics to stderr, failure = message on stderr and a non-zero exit status *)
-Lemma main_wiring_ok :
-  Gen.MainWiring.rows_stream = 1 /\ Gen.MainWiring.diagnostics_stream = 2 /\
-  Gen.MainWiring.error_message_to_stderr_and_exit_code = Some (-1)%Z.
-Proof. repeat split; reflexivity. Qed.
-
-(* the function table: every name resolves to a known function (none falls through to FUnknown) *)
-Lemma fn_table_known :
-  forallb (fun e => match fn_of_canonical (snd (fst (fst e))) with FUnknown _ => false | _ => true end)
-          Gen.FnTable.fn_table = true.
-Proof. vm_compute. reflexivity. Qed.
-Lemma fn_table_counts : length Gen.FnTable.fn_table = 192%nat /\ Gen.FnTable.fn_count = 111.
-Proof. split; reflexivity. Qed.
+(* TableProofs.v — all table obligations (see Tables/*.v, one file per generated table) *)
+From Jawk Require Export RankOk BytesOk EscapesOk StageOrderOk MainWiringOk FnTableOk.
